@@ -56,40 +56,85 @@ class Driver:
         s = self.sess
         _ctl = self._ctl
         k = action[0]
+        kw = (self.n % 4 == 1)  # every fourth call passes everything by keyword, every other fourth everything positionally
+        pos = (self.n % 4 == 3)
         if k == "bind_simple":
             _, dn, pw, ctl = action
+            if kw:
+                return s.bind_simple(dn=dn, password=pw, controls=_ctl(ctl))
+            if pos:
+                return s.bind_simple(dn, pw, _ctl(ctl))
             return s.bind_simple(dn, pw, controls=_ctl(ctl))
         if k == "bind_sasl":
             _, mech, dn, cred, ctl = action
+            if kw:
+                return s.bind_sasl(mechanism=mech, dn=dn, cred=cred, controls=_ctl(ctl))
+            if pos:
+                return s.bind_sasl(mech, dn, cred, _ctl(ctl))
             return s.bind_sasl(mech, dn, cred, controls=_ctl(ctl))
         if k == "search":
             _, base, scope, deref, size, tm, to, flt, attrs, ctl = action
             if self.n % 2:  # the members an application writes by name; otherwise the plain ints (IntEnum members are ints)
                 scope, deref = av.enum_by_number(sl.SearchScope, av.SCOPE_NAMES, scope), av.enum_by_number(sl.DereferencingPolicy, av.DEREF_NAMES, deref)
-            return s.search_request(base, scope, deref, size, tm, to, av.b_filter(flt) if flt is not None else None, list(attrs) if attrs is not None else None, controls=_ctl(ctl))
+            f_obj = av.b_filter(flt) if flt is not None else None
+            a_obj = list(attrs) if attrs is not None else None
+            if kw:
+                return s.search_request(base_object=base, scope=scope, dereferencing_policy=deref, size_limit=size, time_limit=tm, types_only=to, filter=f_obj,
+                                        attributes=a_obj, controls=_ctl(ctl))
+            if pos:
+                return s.search_request(base, scope, deref, size, tm, to, f_obj, a_obj, _ctl(ctl))
+            return s.search_request(base, scope, deref, size, tm, to, f_obj, a_obj, controls=_ctl(ctl))
         if k == "extended":
             _, name, value, ctl = action
-            return s.extended_request(av.enum_name(name, self.n), value, controls=_ctl(ctl))
+            name = av.enum_name(name, self.n)
+            if kw:
+                return s.extended_request(name=name, value=value, controls=_ctl(ctl))
+            if pos:
+                return s.extended_request(name, value, _ctl(ctl))
+            return s.extended_request(name, value, controls=_ctl(ctl))
         if k == "unbind":
             return s.unbind()
         if k in ("bind_response", "extended_response", "entry", "reference", "done"):
             # applications compute ids in many ways: never rely on the identity of an int object
             action = (action[0], int(str(action[1]))) + tuple(action[2:])
+        rc = lambda code: av.enum_by_number(sl.LDAPResultCode, av.RESULT_NAMES, code)
         if k == "bind_response":
             _, mid, sasl, code, matched, diag, ctl = action
-            return s.bind_response(mid, sasl_creds=sasl, result_code=av.enum_by_number(sl.LDAPResultCode, av.RESULT_NAMES, code), matched_dn=matched, diagnostics_message=diag, controls=_ctl(ctl))
+            if kw:
+                return s.bind_response(message_id=mid, sasl_creds=sasl, result_code=rc(code), matched_dn=matched, diagnostics_message=diag, controls=_ctl(ctl))
+            if pos:
+                return s.bind_response(mid, sasl, rc(code), matched, diag, _ctl(ctl))
+            return s.bind_response(mid, sasl_creds=sasl, result_code=rc(code), matched_dn=matched, diagnostics_message=diag, controls=_ctl(ctl))
         if k == "extended_response":
             _, mid, name, value, code, matched, diag, ctl = action
-            return s.extended_response(mid, name=av.enum_name(name, self.n), value=value, result_code=av.enum_by_number(sl.LDAPResultCode, av.RESULT_NAMES, code), matched_dn=matched, diagnostics_message=diag, controls=_ctl(ctl))
+            name = av.enum_name(name, self.n)
+            if kw:
+                return s.extended_response(message_id=mid, name=name, value=value, result_code=rc(code), matched_dn=matched, diagnostics_message=diag, controls=_ctl(ctl))
+            if pos:
+                return s.extended_response(mid, name, value, rc(code), matched, diag, _ctl(ctl))
+            return s.extended_response(mid, name=name, value=value, result_code=rc(code), matched_dn=matched, diagnostics_message=diag, controls=_ctl(ctl))
         if k == "entry":
             _, mid, name, attrs, ctl = action
-            return s.search_result_entry(mid, name, [sl.PartialAttribute(n, list(v)) for n, v in attrs], controls=_ctl(ctl))
+            pa = [sl.PartialAttribute(n, list(v)) if i % 2 == 0 else sl.PartialAttribute(name=n, values=list(v)) for i, (n, v) in enumerate(attrs)]
+            if kw:
+                return s.search_result_entry(message_id=mid, object_name=name, attributes=pa, controls=_ctl(ctl))
+            if pos:
+                return s.search_result_entry(mid, name, pa, _ctl(ctl))
+            return s.search_result_entry(mid, name, pa, controls=_ctl(ctl))
         if k == "reference":
             _, mid, uris, ctl = action
+            if kw:
+                return s.search_result_reference(message_id=mid, uris=list(uris), controls=_ctl(ctl))
+            if pos:
+                return s.search_result_reference(mid, list(uris), _ctl(ctl))
             return s.search_result_reference(mid, list(uris), controls=_ctl(ctl))
         if k == "done":
             _, mid, code, matched, diag, ctl = action
-            return s.search_result_done(mid, result_code=av.enum_by_number(sl.LDAPResultCode, av.RESULT_NAMES, code), matched_dn=matched, diagnostics_message=diag, controls=_ctl(ctl))
+            if kw:
+                return s.search_result_done(message_id=mid, result_code=rc(code), matched_dn=matched, diagnostics_message=diag, controls=_ctl(ctl))
+            if pos:
+                return s.search_result_done(mid, rc(code), matched, diag, _ctl(ctl))
+            return s.search_result_done(mid, result_code=rc(code), matched_dn=matched, diagnostics_message=diag, controls=_ctl(ctl))
         if k == "receive":
             return s.receive(action[1])
         raise ValueError(k)
